@@ -1712,16 +1712,20 @@ func (t *TBtree) Close() error {
 
 	t.closed = true
 
-	if t.root.tsMutated() {
-		if err := t.writeTsFile(); err != nil {
-			return err
-		}
-	}
+	tsMutated := t.root.tsMutated()
 
 	merrors := multierr.NewMultiErr()
 
 	_, _, err := t.flushTree(0, true, false, "close")
 	merrors.Append(err)
+
+	// the timestamp file must not get ahead of the flushed tree: if the process
+	// stopped in between, the reopened index would claim a logical time whose
+	// entries it does not hold and they would never be indexed again
+	if err == nil && tsMutated {
+		err = t.writeTsFile()
+		merrors.Append(err)
+	}
 
 	err = t.nLog.Close()
 	merrors.Append(err)
